@@ -88,6 +88,10 @@ def combos(chk, tier):
         netgen.leeds_line(6, ["H+", "GRAIN-"], ["H", "GRAIN0"], rtype=6), netgen.leeds_line(7, ["H", "CO"], ["HCO+", "e-"])]) + "\n")
     out.append(("leeds-grain-species+hh93", [d / "grains.leeds"], ["leeds"], "hh93", {}, G))
     out.append(("leeds-grain-species+hh93i", [d / "grains.leeds"], ["leeds"], "hh93i", {}, G))
+    # the grains as species of the network (declared as extra species) under the models that otherwise take the grain density as a
+    # parameter
+    out.append(("uclchem-ice-grain-species+rr07", [d / "ice-notherm.ucl"], ["uclchem"], "rr07", {"required_species": ["GRAIN0", "GRAIN-"]}, E))
+    out.append(("uclchem-ice-grain-species+rr07x", [d / "ice.ucl"], ["uclchem"], "rr07x", {"required_species": ["GRAIN0", "GRAIN-"]}, E))
     # the bundled Leeds network without the species whose names give illegal identifiers (known finding F9): everything else of
     # that network must compile with every hh93 variant
     (d / "legal.leeds").write_text("".join(l for l in (DATA / "rate12_HO.leeds").read_text().splitlines(True)
